@@ -66,6 +66,25 @@ pub struct Input {
     pub pad_values: bool,
 }
 
+/// Keys are kept as strings in which every char below U+0100 stands for the
+/// byte of the same value (so `\u{0}`, `\u{80}` or `\u{ff}` put a NUL byte or
+/// invalid UTF-8 into the input file); other chars are written as UTF-8.
+pub fn key_bytes(k: &str) -> Vec<u8> {
+    let mut out = Vec::with_capacity(k.len());
+    for ch in k.chars() {
+        if (ch as u32) < 256 {
+            out.push(ch as u32 as u8);
+        } else {
+            let mut b = [0u8; 4];
+            out.extend_from_slice(ch.encode_utf8(&mut b).as_bytes());
+        }
+    }
+    out
+}
+pub fn key_string(b: &[u8]) -> String {
+    b.iter().map(|x| *x as char).collect()
+}
+
 /// A thread that feeds one FIFO input.
 pub struct Feeder {
     path: PathBuf,
@@ -128,7 +147,7 @@ impl Input {
         for f in self.files.iter().chain(again.into_iter()) {
             for (k, v) in f {
                 let v = if self.mode == Mode::Set { 0 } else { *v };
-                m.entry(k.as_bytes().to_vec())
+                m.entry(key_bytes(k))
                     .and_modify(|cur| {
                         *cur = match self.mode {
                             Mode::Set => 0,
@@ -147,19 +166,20 @@ impl Input {
         self.model().len() != self.rows() || self.listed_twice.iter().any(|i| self.files.get(*i).map_or(false, |f| !f.is_empty()))
     }
 
-    fn content(&self, i: usize) -> String {
+    fn content(&self, i: usize) -> Vec<u8> {
         let f = &self.files[i];
-        let nl = if self.crlf.get(i).copied().unwrap_or(false) { "\r\n" } else { "\n" };
-        let mut s = String::new();
+        let nl: &[u8] = if self.crlf.get(i).copied().unwrap_or(false) { b"\r\n" } else { b"\n" };
+        let mut s: Vec<u8> = Vec::new();
         for (k, v) in f {
-            if self.mode == Mode::Set {
-                s.push_str(k);
-            } else if self.pad_values {
-                s.push_str(&format!("{},{:020}", k, v));
-            } else {
-                s.push_str(&format!("{},{}", k, v));
+            s.extend_from_slice(&key_bytes(k));
+            if self.mode != Mode::Set {
+                if self.pad_values {
+                    s.extend_from_slice(format!(",{:020}", v).as_bytes());
+                } else {
+                    s.extend_from_slice(format!(",{}", v).as_bytes());
+                }
             }
-            s.push_str(nl);
+            s.extend_from_slice(nl);
         }
         // (a blank last line needs its newline to be a line at all)
         let blank_last = self.mode == Mode::Set && f.last().map(|(k, _)| k.is_empty()).unwrap_or(false);
@@ -191,7 +211,7 @@ impl Input {
                     // blocks until the command (or the release below) opens
                     // the other end
                     if let Ok(mut f) = std::fs::OpenOptions::new().write(true).open(&p2) {
-                        let _ = f.write_all(s.as_bytes());
+                        let _ = f.write_all(&s);
                     }
                 });
                 feeders.push(Feeder { path: p.clone(), handle: Some(handle) });
@@ -499,7 +519,7 @@ pub fn sorted_build(input: &Input, dir: &Path) -> Result<Vec<u8>, String> {
         pad_values: false,
         files: vec![model
             .iter()
-            .map(|(k, v)| (String::from_utf8_lossy(k).to_string(), *v))
+            .map(|(k, v)| (key_string(k), *v))
             .collect()],
     };
     let inputs = sorted.write_files(dir);
